@@ -595,6 +595,11 @@ Section Group.
         lia.
   Qed.
 
+  Lemma sign_loop_fuel_n fuel d z k : n <= Z.of_nat fuel -> sign_loop' fuel d z k <> OutOfFuel.
+  Proof.
+    intros H. apply sign_loop_no_fuel. pose proof (Z.mod_pos_bound (- k) n ltac:(lia)). lia.
+  Qed.
+
   (* a raise of the loop is the TypeError at a multiple of the order, every nonce before it rejected *)
   Lemma sign_loop_raise d z : forall fuel k0 e, sign_loop' fuel d z k0 = Raise e ->
     e = E_TYPE /\ exists j, k0 <= j /\ coords (smul j G) = None /\ forall i, k0 <= i < j -> sign_step' d z i = Ret None.
@@ -693,6 +698,16 @@ Section Group.
       rewrite Z.mod_small by lia; lia.
   Qed.
 
+  Theorem recover_sound_below : (forall x, 1 <= x < n -> x_canon x) ->
+    forall z r s yp l Q, z <> 0 -> recover' z r s yp = Ret l -> In Q l -> verify' (Some Q) z r s = Ret true.
+  Proof.
+    intros Hb z r s yp l Q Hz H Hin.
+    destruct (out_of_range n r s) eqn:E.
+    { unfold recover in H. rewrite E in H. inversion H; subst. destruct Hin. }
+    apply out_of_range_false in E. destruct E as [Hr Hs].
+    apply (recover_sound z r s yp l Q Hz (Hb r Hr) H Hin).
+  Qed.
+
   (* every key under which (r, s) verifies with a sum point of abscissa exactly r is recovered,
      alone when the parity of that point's ordinate is given *)
   Theorem recover_complete Q z r s si y : z <> 0 -> 1 <= r < n -> 1 <= s < n ->
@@ -711,6 +726,14 @@ Section Group.
       rewrite Hrec. f_equal. unfold select. rewrite Hyp.
       rewrite <- (point_candidate z r s ir si Q Hir Hsi). rewrite HR.
       destruct (Z.odd y); reflexivity.
+  Qed.
+
+  Theorem recover_complete' Q z r s w y : z <> 0 -> 1 <= r < n -> 1 <= s < n -> (s * w) mod n = 1 ->
+    coords (add (smul (z * w) G) (smul (r * w) Q)) = Some (r, y) ->
+    (exists l, recover' z r s None = Ret l /\ In Q l) /\
+    (forall yp, Z.odd yp = Z.odd y -> recover' z r s (Some yp) = Ret [Q]).
+  Proof.
+    intros Hz Hr Hs Hw Hc. apply (recover_complete Q z r s w y Hz Hr Hs); [apply eqm_one; assumption|exact Hc].
   Qed.
 
   (* the signer's key is recovered when the nonce point's abscissa is below n, i.e. recid < 2 *)
